@@ -692,12 +692,15 @@ func (a *Assembler) AssembleWithContext(netFlow gopacket.Flow, t *layers.TCP, ac
 		queue:   true,
 	}
 	a.dump("AssembleWithContext()", half)
+	if t.SYN {
+		// the SYN flag occupies one sequence number: payload starts at seq+1
+		seq = seq.Add(1)
+	}
 	if half.nextSeq == invalidSequence {
 		if t.SYN {
 			if *debugLog {
 				log.Printf("%v saw first SYN packet, returning immediately, seq=%v", key, seq)
 			}
-			seq = seq.Add(1)
 			half.nextSeq = seq
 			action.queue = false
 		} else if a.start {
